@@ -592,6 +592,66 @@ func c02confusableCase(c *vf.Ctx, i int) {
 }
 
 // ---------------------------------------------------------------------------
+// stream "bit-alias": one character of a valid string replaced by a byte that
+// differs from it only in bits 5..7 (what masking tricks such as c|0x20 or
+// c&0x1f conflate: control bytes for digits, '@'..'_' for letters, high
+// bytes), and by arbitrary byte values.
+
+func c02bitAliasCase(c *vf.Ctx, i int) {
+	r := c.R
+	net := allNets[i%len(allNets)]
+	var valid []struct{ name, s string }
+	switch (i / 6) % 4 {
+	case 0, 1:
+		kind := [][2]int{{0x00, 20}, {0x08, 20}, {0x0b, 32}}[(i/24)%3]
+		prefix := net.P.CashAddressPrefix
+		if (i/72)%2 == 1 && net.P.SlpAddressPrefix != "" {
+			prefix = net.P.SlpAddressPrefix
+		}
+		body := ref.CashEncodeSymbols(prefix, ref.Pack8to5(append([]byte{byte(kind[0])}, randHash(r, kind[1])...)))
+		valid = append(valid, struct{ name, s string }{"bare-lower", body}, struct{ name, s string }{"bare-upper", asciiUpper(body)},
+			struct{ name, s string }{"prefixed-lower", prefix + ":" + body}, struct{ name, s string }{"prefixed-upper", asciiUpper(prefix + ":" + body)})
+	case 2:
+		ver := net.P.LegacyPubKeyHashAddrID
+		if r.Bool() {
+			ver = net.P.LegacyScriptHashAddrID
+		}
+		valid = append(valid, struct{ name, s string }{"legacy", ref.B58CheckEncode(ver, randHash(r, 20))})
+	default:
+		k := new(big.Int).SetBytes(r.Bytes(32))
+		k.Mod(k, new(big.Int).Sub(ref.SecN, big.NewInt(1)))
+		k.Add(k, big.NewInt(1))
+		pt := ref.BaseMul(k)
+		valid = append(valid, struct{ name, s string }{"pubkey-hex-compressed", hx(pt.Compressed())}, struct{ name, s string }{"pubkey-hex-uncompressed", asciiUpper(hx(pt.Uncompressed()))})
+	}
+	for _, f := range valid {
+		c.Nontrivial(vf.Mix(0xa11a5, vf.HashString(f.s), vf.HashString(net.Name)))
+		b := []byte(f.s)
+		for p := range b {
+			orig := b[p]
+			for _, mask := range []byte{0x20, 0x40, 0x60, 0x80, 0xa0, 0xc0, 0xe0, 0x10} {
+				b[p] = orig ^ mask
+				c.Inc("bit-alias-strings")
+				c02verify(c, "bit-alias", fmt.Sprintf("bit-alias/xor-%02x", mask), f.name, string(b), net)
+			}
+			b[p] = orig
+		}
+		for k := 0; k < 24; k++ {
+			p := r.Intn(len(b))
+			orig := b[p]
+			b[p] = byte(r.Intn(256))
+			if b[p] != orig {
+				c02verify(c, "bit-alias", "bit-alias/any-byte", f.name, string(b), net)
+			}
+			b[p] = orig
+		}
+	}
+	if c.WantSample() {
+		c.Sample(map[string]string{"net": net.Name, "valid": valid[0].s, "example": fmt.Sprintf("%q", valid[0].s[:3]+string([]byte{valid[0].s[3] ^ 0x20})+valid[0].s[4:])})
+	}
+}
+
+// ---------------------------------------------------------------------------
 // stream "legacy": Base58Check over all version bytes x payload lengths 0..40
 
 const c02legacyEnum = 256 * 41
@@ -853,6 +913,7 @@ func init() {
 		ID:    "C02",
 		Title: "Address decoding is strict, canonical and network-separating",
 		Rule: "stream cash: every (version byte 0..255, payload length 0..65) with zero / non-zero padding bits and an extra symbol, reference checksum computed for the requested net's cash and SLP prefix, other nets' prefixes, unknown and empty prefixes, rendered bare / prefixed in lower, UPPER and mixed case and with a swapped prefix, then random symbol lists; " +
+			"stream bit-alias: every character of valid cash / legacy / public-key strings replaced by the bytes that differ from it only in bits 4..7, plus random byte values; " +
 			"stream confusables: valid strings with one or all letters replaced by non-ASCII look-alikes (U+212A, U+017F, U+0130, ...) and with whitespace / NUL / BOM decorations; " +
 			"stream legacy: Base58Check over every version byte x payload length 0..40, plus corrupted checksums and decorations; " +
 			"stream pubkeys: hex of 33- and 65-byte keys over every first byte 0x00..0xff with on-curve, off-curve, negated-y and unreduced coordinates in lower / UPPER / mixed hex. " +
@@ -868,6 +929,7 @@ func init() {
 		Streams: []*vf.Stream{
 			{Name: "cash", N: func(t vf.Tier) int { return c02cashEnum*t.Sz(1, 4) + t.Sz(16000, 200000) }, Run: c02cashCase},
 			{Name: "confusables", N: func(t vf.Tier) int { return t.Sz(40000, 400000) }, Run: c02confusableCase},
+			{Name: "bit-alias", N: func(t vf.Tier) int { return t.Sz(3000, 60000) }, Run: c02bitAliasCase},
 			{Name: "legacy", N: func(t vf.Tier) int { return c02legacyEnum + t.Sz(10000, 400000) }, Run: c02legacyCase},
 			{Name: "pubkeys", N: func(t vf.Tier) int { return 64 + t.Sz(600, 8000) }, Run: c02pubkeyCase},
 		},
